@@ -3,7 +3,7 @@
 import json, os
 V = os.path.dirname(os.path.dirname(os.path.abspath(__file__)))
 TB = ("Coq 8.16.1 kernel incl. vm_compute; hand model coq/Model tied to /repo by correspondence suites evaluated inside Coq at Qc; "
-      "translators tools/tr_*.py; floating point, numpy broadcasting and the sparse solver are not modelled; axioms per theorem are "
+      "translators tools/tr_*.py; floating point (except the limiters and the zero guard, C13), numpy broadcasting and the sparse solver are not modelled; axioms per theorem are "
       "listed in the evidence file from Print Assumptions")
 CLAIMS = {
  "C01": ("Tie also symbolic: the relevant builders are traced on symbolic inputs and every traced entry is proved equal to the model's coefficient for all values (DESIGN 2.7). Generic-field theorems: every flux-form term (divergence, diffusion, central, upwind, TVD) changes the cellvolume-weighted sum only "
@@ -24,7 +24,7 @@ CLAIMS = {
  "C04": ("Tie also symbolic: the relevant builders are traced on symbolic inputs and every traced entry is proved equal to the model's coefficient for all values (DESIGN 2.7). Theorems over every solution of the assembled system: term order irrelevant, linear in the unknown, superposition in sources/boundary "
          "data/old values, terms never enter boundary rows (Props/C04.v); the solve suite evaluates the residual of the MODEL system inside Coq at "
          "the real solver's answer for random term lists; probes: identity of the returned object, external solver receives the identical system, "
-         "solveMatrixPDE agreement, per-cell source/transient coefficients against a cell-by-cell assembly; uniqueness of the solution of C07-type systems over R, stated for is_solution itself with hypotheses on the data only (closure hypotheses derived from the boundary rows)", "DESIGN.md 4 (C04)"),
+         "solveMatrixPDE agreement, per-cell source/transient coefficients against a cell-by-cell assembly; uniqueness of the solution of C07-type systems over R, stated for is_solution itself with hypotheses on the data only (closure hypotheses derived from the boundary rows). The ASSEMBLY of solvePDE is in the symbolic tie: the system a spying external solver receives for a list of negated / scaled matrices, vectors and a (matrix, vector) pair, called twice with the same list, is proved equal row by row to sys_lhs / sys_rhs / bc_lhs / bc_rhs of the model for all values (solveL*, solveR*)", "DESIGN.md 2.7, 4 (C04)"),
  "C07": ("Tie also symbolic: the relevant builders are traced on symbolic inputs and every traced entry is proved equal to the model's coefficient for all values (DESIGN 2.7). Theorems over R: every solution of a system whose rows are convex combinations plus sink stays within [min(data,0), max(data,0)] (within the data "
          "range without sink), non-negativity; sign structure of the diffusion and upwind stencils and row sum = div(u); per axis, -diffusion + upwind has "
          "exactly the convex row shape; and ON THE MODEL for every class and dimension: every solution of the transient/-diffusion/upwind(div-free)/sink "
@@ -46,7 +46,7 @@ CLAIMS = {
          "per-cell geometric-volume and label probes", "DESIGN.md 4 (C10)"),
  "C11": ("Tie also symbolic: the relevant builders are traced on symbolic inputs and every traced entry is proved equal to the model's coefficient for all values (DESIGN 2.7). Theorems: constants, linear exactness on any spacing, donor-cell rule (generic field); over R: every mean lies between its two neighbours and "
          "harmonic <= geometric <= arithmetic with the same width weights (weighted AM-GM from 1+x<=exp x) (Props/C11.v); means suite on all classes incl. "
-         "zeros; probes incl. geometricMean closed form and a donor-cell reference for upwindMean", "DESIGN.md 4 (C11)"),
+         "zeros; probes incl. geometricMean closed form and a donor-cell reference for upwindMean; linearMean, arithmeticMean, harmonicMean (all non-zero data) and upwindMean (three sign patterns) are in the symbolic tie", "DESIGN.md 4 (C11)"),
  "C14": ("Storage-level model Model/Algebra.v; theorems by induction over expression trees of any depth: no operator writes a pre-existing array, results "
          "of operator applications are fresh arrays (value, ghosts, every BC array), results carry the boundary conditions of the left-most variable leaf, "
          "copy() is equal and fresh; operator table regenerated from cell.py/face.py has every reflected form (Props/C14.v). Elementwise numerics are numpy's: "
@@ -67,7 +67,7 @@ CLAIMS = {
          "definition; over R on every class and dimension (diffusion D>=0, upwind with divergence-free u, sink): |step - steady| <= W*A/(A+dt*B) (beta>=B>0), |step - old| <= dt*P/a0, |implicit - explicit| <= dt^2*Q/a0, and the epsilon-forms of both limits (Props/C12.v). Not covered by theorems: dt->inf with beta = 0, central advection. Suites solve/explicit; dt sweeps over 12 decades, multi-step and explicit update_value loops on the real code", "DESIGN.md 4 (C12)"),
  "C13": ("Theorems about the limiter definitions REGENERATED from utilities.fluxLimiter / advection._fsign on every run (published closed form "
          "for every real r, all denominators non-zero, psi(1)=1, 0<=psi<=min(2r,4), clipping, fallback, _fsign never 0, |_fsign(x)| >= eps1 with the sign of x so that every gradient ratio a/_fsign(x) is bounded by |a|/eps1), translator sanity at Qc "
-         "inside Coq, symbolic tie of the ratios the TVD code forms (a/_fsign(face gradient)) and a search on the real code", "DESIGN.md 4 (C13)"),
+         "inside Coq, symbolic tie of the ratios the TVD code forms (a/_fsign(face gradient)) and a search on the real code. BINARY64 LEVEL: the regenerated definitions are also evaluated with Coq's primitive floats (IEEE 754 binary64) and compared bit for bit with numpy (incl. denormals and the overflow region); on Flocq's specification of primitive floats it is proved that 12 limiters, the unknown-name fallback and _fsign are finite (no overflow, no invalid operation) for every float |r| <= 2^500 (C13_float_finite_partial; not proved for CHARM, HCUS, HQUICK, ospre), and the full statement is refuted beyond 2^512 by evaluation (C13_float_overflow_refuted; known finding c13:float_overflow)", "DESIGN.md 2.1, 4 (C13)"),
 }
 props = [json.loads(l) for l in open(os.path.join(V, "properties.jsonl"))]
 old = {}
